@@ -210,6 +210,9 @@ pub const VARIANT_INTERFERE: u8 = 253;
 /// The failure was observed while the state and a twin game (another turn start that reaches the same
 /// board with its first step) were advanced in lockstep on one thread, see `lockstep_probe`.
 pub const VARIANT_LOCKSTEP: u8 = 252;
+/// The failure was observed at the end of a side walk of one to three offered actions below the state
+/// during which the intermediate states were asked for nothing but their action list, see `sparse_probe`.
+pub const VARIANT_SPARSE: u8 = 251;
 
 pub enum Source<'a> {
     Ops(&'a [(u16, u8)]),
@@ -702,6 +705,9 @@ pub fn observe_forks(eng: &GameState, mo: &Model, variants: &[u8], obs: &mut dyn
     if variants == [VARIANT_LOCKSTEP] {
         return lockstep_probe(eng, mo, obs, st).map_err(|f| (f, VARIANT_LOCKSTEP));
     }
+    if variants == [VARIANT_SPARSE] {
+        return sparse_probe(eng, mo, obs, st).map_err(|f| (f, VARIANT_SPARSE));
+    }
     if variants == [VARIANT_REBUILD] {
         // the rebuilt state itself is what the observer looks at: if the constructors do not preserve
         // behaviour, the observer's own clauses say how
@@ -784,6 +790,57 @@ pub fn observe_forks(eng: &GameState, mo: &Model, variants: &[u8], obs: &mut dyn
     Ok(())
 }
 
+
+/// Sparse-observation probe. The state has just been observed (all its queries asked). Side walks of one,
+/// two and three offered actions are made below it in which the intermediate states are asked for
+/// nothing but `valid_actions()` (needed to choose the next action), and only the last state is
+/// observed: a client that looks closely at some states and merely passes through others.
+pub fn sparse_probe(eng: &GameState, mo: &Model, obs: &mut dyn Obs, st: &mut Stats) -> Check {
+    if mo.setup {
+        return Ok(());
+    }
+    for len in 1..=3usize {
+        let (mut e, mut m2) = (eng.clone(), mo.clone());
+        let mut path: Vec<Action> = vec![];
+        let mut ok = true;
+        for k in 0..len {
+            let offered = match guard(|| e.valid_actions()) {
+                Ok(l) if !l.is_empty() => l,
+                _ => {
+                    ok = false;
+                    break;
+                }
+            };
+            // prefer staying inside the turn (steps), so that the walk ends in the middle of a turn
+            let steps: Vec<Action> = offered.iter().copied().filter(|a| matches!(a, Action::Move(..)) && !m2.ends_turn(to_maction(a))).collect();
+            let pool = if steps.is_empty() { &offered } else { &steps };
+            let a = pool[(fp_combine(mo.fingerprint(), (len as u64) << 8 | k as u64) % pool.len() as u64) as usize];
+            if m2.step == 0 && m2.result_at_turn_start().is_some() {
+                ok = false; // nothing is played after the game is over
+                break;
+            }
+            let n = match guard(|| e.take_action(&a)) {
+                Ok(n) => n,
+                Err(_) => {
+                    ok = false;
+                    break;
+                }
+            };
+            if m2.apply(to_maction(&a)).is_err() {
+                ok = false;
+                break;
+            }
+            e = n;
+            path.push(a);
+        }
+        if !ok || path.len() != len {
+            continue;
+        }
+        st.bump("side_walks_with_unobserved_intermediate_states");
+        obs.on_state(&View::new(&e, &m2, true), st).map_err(|f| Fail::new(&f.clause, format!("(after the side walk {} below the observed state, during which the intermediate states were asked for nothing but their action list) {}", actions_text(&path), f.detail)))?;
+    }
+    Ok(())
+}
 
 /// Lockstep probe. `eng` is a state after the first step of a turn. A twin game is started from another
 /// legal turn-start position - the same board with the piece that has just moved standing on a different
@@ -1115,6 +1172,13 @@ pub fn walk(
                     t.fork = Some(VARIANT_INTERFERE);
                     return Err(WalkFail { fail: Fail::new(&f.clause, format!("(a fresh object of this state whose public queries were first asked in order number {}) {}", order, f.detail)), trace: t, inconclusive: false });
                 }
+            }
+        }
+        if opts.interfere && !mo.setup && (fp_combine(aux, i as u64 ^ 0x4c4c) & 1) == 0 {
+            if let Err((f, variant)) = observe_forks(&eng, &mo, &[VARIANT_SPARSE], obs, st) {
+                let mut t = trace.clone();
+                t.fork = Some(variant);
+                return Err(WalkFail { fail: f, trace: t, inconclusive: false });
             }
         }
         if opts.interfere && !mo.setup && mo.step == 1 {
